@@ -852,5 +852,7 @@ def identity_flow(prog, f, op, is_terminal, ident=None, limit=14):
                 foreign.append("parameter %s%s" % (f.local_name(o.ref), "".join(p for p in map(str, o.proj) if p.startswith("."))[:40]))
             elif o.kind == "const":
                 foreign.append("constant")
+            elif o.kind == "op":
+                foreign.append("arithmetic (%s)" % (o.ref[2][1] if len(o.ref[2]) > 1 else o.ref[2][0]))
     walk(op, 0)
     return terms, foreign
